@@ -462,3 +462,102 @@ pub fn cold_start(n: usize, seed: u64, turns: u32, depth: u32) -> (usize, usize)
     let bad = results.iter().filter(|r| **r != expected).count();
     (bad, expected.len() * n)
 }
+
+
+fn collect(g: &GameState, depth: u32, out: &mut Vec<GameState>, cap: usize) {
+    if out.len() >= cap {
+        return;
+    }
+    out.push(g.clone());
+    if depth == 0 || (g.is_play_phase() && g.current_step() == 0 && g.is_terminal().is_some()) {
+        return;
+    }
+    for a in g.valid_actions() {
+        collect(&g.take_action(&a), depth - 1, out, cap);
+    }
+}
+
+/// Pool round: many DIFFERENT states (all nodes of the turn trees below the roots) are queried by
+/// `n` threads at the same time, each thread in its own order, so that at any moment different
+/// threads work on different states and different queries; every answer must equal the one the
+/// same state gave sequentially. Returns (mismatches, states in the pool).
+pub fn pool_round(roots: &[GameState], depth: u32, n: usize, seed: u64, passes: u32, cap: usize) -> (usize, usize) {
+    let mut pool: Vec<GameState> = vec![];
+    for r in roots {
+        collect(r, depth, &mut pool, cap);
+    }
+    let expected: Vec<u64> = pool.iter().map(|g| fingerprint(g, false)).collect();
+    let pool = Arc::new(pool);
+    let expected = Arc::new(expected);
+    let hs: Vec<_> = (0..n)
+        .map(|i| {
+            let pool = Arc::clone(&pool);
+            let expected = Arc::clone(&expected);
+            std::thread::spawn(move || {
+                let mut rng = Lcg(seed ^ ((i as u64 + 1) << 32));
+                let mut bad = 0usize;
+                let m = pool.len();
+                for _ in 0..passes {
+                    // a different stride per thread visits the pool in a different order
+                    let stride = 1 + 2 * rng.below(m.max(2) / 2);
+                    let mut k = rng.below(m.max(1));
+                    for _ in 0..m {
+                        if fingerprint(&pool[k], false) != expected[k] {
+                            bad += 1;
+                        }
+                        k = (k + stride) % m;
+                    }
+                }
+                bad
+            })
+        })
+        .collect();
+    let bad: usize = hs.into_iter().map(|h| h.join().unwrap()).sum();
+    (bad, pool.len())
+}
+
+
+/// Duel: thread i works only on the states of group i % groups (e.g. the step-3 states of one of
+/// several sibling games) and queries them over and over while the other threads do the same with
+/// THEIR group: cross-talk between different games shows as an answer that differs from the
+/// sequential one. Returns (mismatches, queries).
+pub fn duel_round(groups: &[Vec<GameState>], threads: usize, iters: u32) -> (usize, usize) {
+    let expected: Vec<Vec<u64>> = groups.iter().map(|g| g.iter().map(|s| fingerprint(s, false)).collect()).collect();
+    let groups = Arc::new(groups.to_vec());
+    let expected = Arc::new(expected);
+    let hs: Vec<_> = (0..threads)
+        .map(|i| {
+            let groups = Arc::clone(&groups);
+            let expected = Arc::clone(&expected);
+            std::thread::spawn(move || {
+                let gi = i % groups.len();
+                let mut bad = 0usize;
+                let mut n = 0usize;
+                for _ in 0..iters {
+                    for (k, st) in groups[gi].iter().enumerate() {
+                        if fingerprint(st, false) != expected[gi][k] {
+                            bad += 1;
+                        }
+                        n += 1;
+                    }
+                }
+                (bad, n)
+            })
+        })
+        .collect();
+    let mut bad = 0;
+    let mut n = 0;
+    for h in hs {
+        let (b, k) = h.join().unwrap();
+        bad += b;
+        n += k;
+    }
+    (bad, n)
+}
+
+/// All states at step `step` in the turn tree below `root`.
+pub fn states_at_step(root: &GameState, step: usize, cap: usize) -> Vec<GameState> {
+    let mut all = vec![];
+    collect(root, step as u32, &mut all, cap * 20);
+    all.into_iter().filter(|g| g.is_play_phase() && g.current_step() == step).take(cap).collect()
+}
